@@ -137,11 +137,16 @@ def td_expected(src):
     }
 
 
+def snapshot_inputs(sf, ch):
+    return (list(sf.items()), len(sf.charts), None if ch is None else list(ch.items()))
+
+
 def check_source(sfkind, version, chartkind, vector, seed, empty_value=""):
     sf = make_simfile(sfkind, version)
     ch = make_chart(chartkind, vector, seed, empty_value=empty_value)
     from_chart = uses_chart(sfkind, version, chartkind, ch)
     want = td_expected(ch if from_chart else sf)
+    before = snapshot_inputs(sf, ch)
     try:
         td = TimingData(sf, ch) if ch is not None else TimingData(sf)
         got = td_observation(td)
@@ -149,6 +154,17 @@ def check_source(sfkind, version, chartkind, vector, seed, empty_value=""):
         raise
     except Exception as e:
         return [{"clause": "TimingData raised", "expected": "timing data", "observed": f"{type(e).__name__}: {e}"}], from_chart
+    # reading timing data is a read: neither the simfile nor the chart changes, and a second reading agrees
+    if before != snapshot_inputs(sf, ch):
+        return [{"clause": "building TimingData modified the simfile or the chart", "expected": before, "observed": snapshot_inputs(sf, ch)}], from_chart
+    try:
+        again = td_observation(TimingData(sf, ch) if ch is not None else TimingData(sf))
+    except core.WatchdogTimeout:
+        raise
+    except Exception as e:
+        again = f"{type(e).__name__}: {e}"
+    if again != got:
+        return [{"clause": "a second TimingData built from the same simfile and chart differs from the first", "expected": got, "observed": again}], from_chart
     if got != want:
         mixed = [k for k in got if got[k] != want[k]]
         return [{
@@ -291,7 +307,12 @@ def check_display(sfkind, version, chartkind, vector, seed, sim_extra, chart_ext
     if not src.get("BPMS"):
         return fails, from_chart, False
     want = expected_display(src, ignore, tokens_of)
+    before = snapshot_inputs(sf, ch)
     got = observe_display(sf, ch, ignore)
+    if snapshot_inputs(sf, ch) != before:
+        fails.append({"clause": "displaybpm modified the simfile or the chart", "expected": before, "observed": snapshot_inputs(sf, ch)})
+    elif observe_display(sf, ch, ignore) != got:
+        fails.append({"clause": "asking for the displayed BPM a second time gives another answer", "expected": got, "observed": observe_display(sf, ch, ignore)})
     if got not in want:
         fails.append({"clause": "displayed BPM is not the selected source's DISPLAYBPM / BPMS as documented", "expected": want, "observed": got, "source": "chart" if from_chart else "simfile"})
     return fails, from_chart, True
